@@ -1238,8 +1238,10 @@ func (c *Client) RemoteUpdate(
 		return nil
 	}
 
-	// execute or fallback
-	c.clockUpdate(update, false)
+	// execute or fallback (forked, as handlers block the read loop)
+	if !c.clockUpdate(update, false) {
+		go c.Sync()
+	}
 
 	return nil
 }
@@ -1255,9 +1257,9 @@ func (c *Client) RemoteUpdateMutations(
 		return nil
 	}
 
-	// execute or fallback
+	// execute or fallback (forked, as handlers block the read loop)
 	if !c.clockUpdateMutations(updates) {
-		c.Sync()
+		go c.Sync()
 	}
 
 	return nil
